@@ -238,6 +238,7 @@ def h_find(params, name: str):
 
 # ------------------------------------------------------------------ engine B
 TOK_Q = ["*", "?", "\\*", "\\\\", "a", ".", "+", "é"]
+TOK_BRACE = ["{", "}", ",", "2", "a", "*"]       # '{m,n}' is a repetition in a regex and plain text in a glob
 TOK_T = ["*", "?", "\\*", "\\?", "\\\\", "a", "b", "/", ".", "+", "^", "$", "{", "[", "(", "|", ")", "]", "}", "é", "-"]
 
 
@@ -268,7 +269,9 @@ def _lists(params):
             n = rnd.choice((2, 2, 3))
             out.append([rnd.choice(singles) for _ in range(n)])
     elif params["mode"] == "illegal":
-        bad = ["\\", "a\\", "\\a", "\\.", "*\\", "\\n", "\\é", "a\\b", "\\\\\\"]
+        bad = ["\\", "a\\", "\\a", "\\.", "*\\", "\\n", "\\é", "a\\b", "\\\\\\",
+               # with characters that are special to string formatting / regex compilation (the error path builds a message)
+               "%s\\.", "\\%", "%d\\x", "100%\\", "{0}\\a", "{\\", "(\\[", "%(x)s\\-"]
         out = [[b] for b in bad] + [["a", b] for b in bad] + [[b, "a"] for b in bad]
     shard, nsh = params["shard"], params["nshards"]
     return [l for i, l in enumerate(out) if i % nsh == shard]
@@ -298,6 +301,10 @@ def lemma_globs(params):
                 cex.append({"harness": "h_glob", "params": {}, "args": {"globs": globs, "name": "a"},
                             "message": "legal glob list %r rejected" % (globs,)})
             S.counts["unsat"] += 1      # decided without a solver call (exception path)
+            continue
+        except Exception as e:      # noqa: BLE001  (any other exception type is a failure of the compile step)
+            cex.append({"harness": "h_glob", "params": {}, "args": {"globs": globs, "name": "a"},
+                        "message": "glob list %r: globs_to_re raised %s: %s" % (globs, type(e).__name__, e)})
             continue
         if not legal:
             cex.append({"harness": "h_glob", "params": {}, "args": {"globs": globs, "name": "a"},
@@ -369,6 +376,10 @@ def partitions(tier, seed):
         P.append(dict(name="globs/random/%d" % sh, kind="py", func="lemma_globs",
                       params=dict(mode="random", tokens=TOK_T, maxtok=4 if q else 5, count=1000 if q else 20000, shard=0, nshards=1, seed=seed * 100 + sh),
                       budget=300 if q else 3000, bounds="seeded lists of 2-3 globs of <= %d tokens; all file names" % (4 if q else 5)))
+    for sh in range(4):
+        P.append(dict(name="globs/braces/%d" % sh, kind="py", func="lemma_globs",
+                      params=dict(mode="single", tokens=TOK_BRACE, maxtok=5 if q else 6, shard=sh, nshards=4, seed=seed), budget=300 if q else 3000,
+                      bounds="every single glob of <= %d tokens over %r; all file names" % (5 if q else 6, TOK_BRACE)))
     P.append(dict(name="globs/illegal", kind="py", func="lemma_globs",
                   params=dict(mode="illegal", tokens=TOK_T, maxtok=1, shard=0, nshards=1, seed=seed), budget=60,
                   bounds="glob lists with an illegal escape must raise"))
